@@ -1378,11 +1378,15 @@ func (s *Set) SymmetricDifference(other Iterator) (Value, error) {
 	diff := s.clone()
 	var x Value
 	for other.Next(&x) {
-		found, err := diff.Delete(x)
+		// An iterable may yield x more than once: whether x
+		// is in s decides, not whether it is still in diff.
+		found, err := s.Has(x)
 		if err != nil {
 			return nil, err
 		}
-		if !found {
+		if found {
+			diff.Delete(x) // can't fail
+		} else {
 			diff.Insert(x) // can't fail
 		}
 	}
